@@ -503,6 +503,7 @@ pub fn build_and_run(case: &Case) -> Outcome {
         let (st, panics) = run_virtual(async { run_internet_with_timeout(&machines, horizon).await });
         (st.map(|s| format!("{s:?}")).unwrap_or("panicked".into()), panics, false)
     } else {
+        let _permit = mt_permit();
         let (rt, name) = mt_runtime(case.workers);
         let st = std::panic::catch_unwind(std::panic::AssertUnwindSafe(|| rt.block_on(async { run_internet_with_timeout(&machines, horizon).await }))).ok();
         // panics up to the return of the run; tearing the runtime down afterwards cancels tasks in arbitrary
